@@ -1,5 +1,6 @@
 import MitmVerif.Model.C07
 import MitmVerif.Model.C07_Reader
+import MitmVerif.Model.C07_Exchange
 import Driver.Proto
 open MitmVerif Driver
 
@@ -81,6 +82,35 @@ def wire (dir lim thr store pol fr segs close : String) : String :=
     | _, _ => "rejected"
   | _, _, _, _, _ => "bad-op"
 
+/-- one direction of an exchange, rendered like a `flow` reply -/
+def renderSide (o : Opts) (rq rs : Side) (d : Bool) (evs : List (Bool × Ev)) : String :=
+  let r := runX o rq rs {} evs
+  let outs := outsOf d r.2
+  let st := if d then r.1.resp else r.1.req
+  let err := outs.contains Out.hookError
+  let relayed := outs.contains Out.sendHead
+  let smp := samplesX o rq rs d {} evs
+  let peer := (dataOf outs).filter (· ≠ [])
+  let content := match st.content with | some c => showBytes c | none => "none"
+  s!"{if err then 1 else 0} {if relayed then 1 else 0} {showNatList smp} {showChunks peer} {content}"
+
+/-- request body, then response body, through the same HttpStream -/
+def exch (lim thr store p1 e1 s1 c1 p2 e2 s2 c2 : String) : String :=
+  match optOf lim, optOf thr, policyOf p1, expOf e1, chunksOf c1, policyOf p2, expOf e2, chunksOf c2 with
+  | some l, some t, some (pq, fq), some eq, some cq, some (pr, fr), some er, some cr =>
+    match l, t with
+    | some l, some t =>
+      if (store ≠ "0" ∧ store ≠ "1") ∨ (s1 ≠ "0" ∧ s1 ≠ "1") ∨ (s2 ≠ "0" ∧ s2 ≠ "1") then "bad-op" else
+      let o : Opts := { limit := l, thr := t, store := store == "1" }
+      let rq : Side := ⟨pq, fq⟩
+      let rs : Side := ⟨pr, fr⟩
+      let evq : List (Bool × Ev) := ((Ev.headers eq (s1 == "1")) :: (cq.map Ev.data ++ [Ev.eom])).map (fun e => (false, e))
+      let evr : List (Bool × Ev) := ((Ev.headers er (s2 == "1")) :: (cr.map Ev.data ++ [Ev.eom])).map (fun e => (true, e))
+      let evs := evq ++ evr
+      renderSide o rq rs false evs ++ " | " ++ renderSide o rq rs true evs
+    | _, _ => "rejected"
+  | _, _, _, _, _, _, _, _ => "bad-op"
+
 def stepLine (line : String) : String :=
   match fields line with
   | ["size", h] =>
@@ -91,6 +121,7 @@ def stepLine (line : String) : String :=
     | none => "bad-op"
   | ["flow", dir, lim, thr, store, pol, exp, endS, chunks] => flow dir lim thr store pol exp endS chunks
   | ["wire", dir, lim, thr, store, pol, fr, segs, close] => wire dir lim thr store pol fr segs close
+  | ["exch", lim, thr, store, p1, e1, s1, c1, p2, e2, s2, c2] => exch lim thr store p1 e1 s1 c1 p2 e2 s2 c2
   | _ => "bad-op"
 
 end C07Driver
